@@ -109,21 +109,44 @@ func unq(s string) string {
 type want struct {
 	kind   string // silent | file | redirect | redirect-or-silent
 	marker string
+	// lenient: the request path is not in canonical form (dot segments,
+	// repeated slashes, a trailing slash behind a regular file). The statement
+	// says what may never be sent for such a path; whether Static resolves it
+	// (as http.Dir does) or refuses it and stays silent is left open, so both
+	// the verdict above and silence are accepted.
+	lenient bool
+}
+
+// underPrefix reports whether p lies under the configured prefix at a segment
+// boundary, and what is left of it. The prefix is spelled with or without
+// slashes; one that consists of slashes only is the root, i.e. every path.
+func underPrefix(prefix, p string) (rest string, ok bool) {
+	name := strings.Trim(prefix, "/")
+	if name == "" {
+		return p, true
+	}
+	pre := "/" + name
+	if p == pre {
+		return "", true
+	}
+	if strings.HasPrefix(p, pre+"/") {
+		return p[len(pre):], true
+	}
+	return "", false
 }
 
 func reference(o Opts, method, p string) want {
 	if method != "GET" && method != "HEAD" {
 		return want{kind: "silent"}
 	}
-	rest := p
-	if o.Prefix != "" {
-		pre := "/" + strings.Trim(o.Prefix, "/")
-		if !strings.HasPrefix(p, pre) {
-			return want{kind: "silent"}
-		}
-		rest = p[len(pre):]
-		if rest != "" && rest[0] != '/' {
-			return want{kind: "silent"}
+	rest, ok := underPrefix(o.Prefix, p)
+	if !ok {
+		return want{kind: "silent"}
+	}
+	lenient := strings.Contains(rest, "//")
+	for _, seg := range strings.Split(rest, "/") {
+		if seg == "." || seg == ".." {
+			lenient = true
 		}
 	}
 	target := path.Clean("/" + rest)
@@ -131,7 +154,7 @@ func reference(o Opts, method, p string) want {
 		return want{kind: "silent"} // no such name can exist; a NUL that dot segments remove does not count
 	}
 	if mark, ok := files[target]; ok {
-		return want{kind: "file", marker: mark}
+		return want{kind: "file", marker: mark, lenient: lenient || strings.HasSuffix(rest, "/")}
 	}
 	if dirs[target] {
 		index := o.Index
@@ -143,12 +166,12 @@ func reference(o Opts, method, p string) want {
 		// names the root once dot segments are resolved ("/..", "/sub/..")
 		if !strings.HasSuffix(p, "/") && path.Clean(p) != "/" {
 			if hasIndex {
-				return want{kind: "redirect"}
+				return want{kind: "redirect", lenient: lenient}
 			}
 			return want{kind: "redirect-or-silent"}
 		}
 		if hasIndex {
-			return want{kind: "file", marker: mark}
+			return want{kind: "file", marker: mark, lenient: lenient}
 		}
 		return want{kind: "silent"}
 	}
@@ -208,11 +231,10 @@ func checkCase(c Case) (out evid.Outcome) {
 			return fail(out, "outside-content", "response contains the content of a file outside the directory: %q; %s", clip(body), desc)
 		}
 		silent := func() evid.Outcome {
-			nextBody := "NEXT"
-			if q.M == "HEAD" {
-				nextBody = "" // the response writer forwards no body for HEAD
-			}
-			if !nextRan || spy.Status() != 299 || body != nextBody || len(spy.Codes) != 1 {
+			// (who drops the body of a HEAD response - the response writer or the
+			// server below it - is not this property's business)
+			bodyOK := body == "NEXT" || (q.M == "HEAD" && body == "")
+			if !nextRan || spy.Status() != 299 || !bodyOK || len(spy.Codes) != 1 {
 				return fail(out, "not-silent", "Static must stay silent (reference: %s) but the response is status %v body %q, next handler ran=%v; %s", w.kind, spy.Codes, clip(body), nextRan, desc)
 			}
 			for _, h := range []string{"ETag", "Expires", "Cache-Control", "Location", "Last-Modified"} {
@@ -242,6 +264,14 @@ func checkCase(c Case) (out evid.Outcome) {
 			}
 			return evid.Outcome{}
 		}
+		if w.lenient && spy.Status() == 299 {
+			// a non-canonical path that Static chose not to resolve
+			if o := silent(); o.Violation != "" {
+				return o
+			}
+			out.Classes = append(out.Classes, "non-canonical-path-refused")
+			continue
+		}
 		switch w.kind {
 		case "silent":
 			if o := silent(); o.Violation != "" {
@@ -264,13 +294,11 @@ func checkCase(c Case) (out evid.Outcome) {
 			out.Classes = append(out.Classes, "indexless-dir")
 		case "file":
 			wantBody := w.marker
-			if q.M == "HEAD" {
-				wantBody = ""
-			}
-			// a conditional request may also be answered "not modified" with an
-			// empty body (that sends nothing of any file, so the statement holds)
-			notModified := q.INM != "" && spy.Status() == 304 && body == ""
-			served := spy.Status() == 200 && body == wantBody
+			// a conditional request whose validator is the one Static handed out
+			// may also be answered "not modified" with an empty body (that sends
+			// nothing of any file, so the statement holds)
+			notModified := q.INM == "match" && spy.Status() == 304 && body == ""
+			served := spy.Status() == 200 && (body == wantBody || (q.M == "HEAD" && body == ""))
 			if nextRan || !(served || notModified) {
 				return fail(out, "wrong-file-response", "want status 200 body %q (or 304 for a conditional request), got status %v body %q, next ran=%v; %s", wantBody, spy.Codes, clip(body), nextRan, desc)
 			}
@@ -284,7 +312,7 @@ func checkCase(c Case) (out evid.Outcome) {
 			out.NonTrivial = true
 			out.Classes = append(out.Classes, "directory")
 		}
-		if c.Opts.Prefix != "" {
+		if strings.Trim(c.Opts.Prefix, "/") != "" {
 			pre := "/" + strings.Trim(c.Opts.Prefix, "/")
 			if strings.HasPrefix(p, pre) && len(p) > len(pre) && p[len(pre)] != '/' {
 				out.NonTrivial = true
@@ -322,7 +350,7 @@ var odd = []string{"..", ".", "", "\x00", "\\", "...", "%2e%2e", "..\\", "a.txt\
 
 func genPath(t *rapid.T, o Opts) string {
 	pre := ""
-	if o.Prefix != "" {
+	if strings.Trim(o.Prefix, "/") != "" {
 		pre = "/" + strings.Trim(o.Prefix, "/")
 	}
 	var b strings.Builder
@@ -359,14 +387,14 @@ var targets = []string{"/a.txt", "/", "/sub", "/sub/", "/sub/b.txt", "/sub/deep/
 func genCase(t *rapid.T) Case {
 	var c Case
 	c.Opts = Opts{
-		Prefix:       []string{"", "", "p", "/p", "/p/", "p/q", "/public", "sub"}[rapid.IntRange(0, 7).Draw(t, "prefix")],
+		Prefix:       []string{"", "", "p", "/p", "/p/", "p/q", "/public", "sub", "/", "//"}[rapid.IntRange(0, 9).Draw(t, "prefix")],
 		Index:        []string{"", "", "home.htm", "index.html", "b.txt"}[rapid.IntRange(0, 4).Draw(t, "index")],
 		ETag:         rapid.Bool().Draw(t, "etag"),
 		Expires:      rapid.Bool().Draw(t, "expires"),
 		CacheControl: rapid.Bool().Draw(t, "cc"),
 	}
 	pre := ""
-	if c.Opts.Prefix != "" {
+	if strings.Trim(c.Opts.Prefix, "/") != "" {
 		pre = "/" + strings.Trim(c.Opts.Prefix, "/")
 	}
 	for i, n := 0, rapid.IntRange(1, 6).Draw(t, "nreq"); i < n; i++ {
@@ -380,7 +408,7 @@ func genCase(t *rapid.T) Case {
 			p = "/" + p // the path of a GET/HEAD request always starts with a slash
 		}
 		c.Reqs = append(c.Reqs, Req{
-			M:   []string{"GET", "GET", "GET", "HEAD", "POST", "PUT", ""}[rapid.IntRange(0, 6).Draw(t, "m")],
+			M:   []string{"GET", "GET", "GET", "HEAD", "POST", "PUT", "", "get", "OPTIONS", "DELETE", "head"}[rapid.IntRange(0, 10).Draw(t, "m")],
 			P:   strconv.QuoteToASCII(p),
 			INM: []string{"", "", "", "match", "nomatch"}[rapid.IntRange(0, 4).Draw(t, "inm")],
 		})
